@@ -79,6 +79,10 @@ pub fn w(s: &str) -> Vec<u8> {
     if s == "." {
         return vec![0];
     }
+    if s.contains('\\') {
+        // a name with decimal escapes (caf\233.example.): the crate's own text parser (C16 judges it)
+        return nm(s).wire_repr().to_vec();
+    }
     assert!(s.ends_with('.'), "name {:?} must be absolute", s);
     let labels: Vec<Vec<u8>> = s[..s.len() - 1].split('.').map(|l| l.as_bytes().to_vec()).collect();
     wire_of_labels(&labels)
